@@ -193,7 +193,7 @@ func (f *Filter) defaultJSMappingCallback(isolated *sourcemap.Mapping) {
 	isolated.OriginalFile = f.normalizePath(isolated.OriginalFile)
 
 	// Adjust line and column numbers to account for existing offset.
-	if isolated.GeneratedLine == 0 {
+	if isolated.GeneratedLine == 1 { // decoded generated lines are 1-based
 		isolated.GeneratedColumn += f.column
 	}
 	isolated.GeneratedLine += f.line
